@@ -95,61 +95,61 @@ pub fn dyn_leaf(lit: Expr) -> Expr { Expr::If { cond: Box::new(Expr::Bool(true))
 #[cfg(kani)] pub fn stub_collect_emitted_event(_e: Event) {}
 #[cfg(kani)] pub fn stub_call_user_function(_f: &UserFunction, _a: &[Value], _e: &Event, _c: &SequenceContext, _fs: &FxHashMap<String, UserFunction>) -> Option<Value> { None }
 
-vpv_cell!(#[kani::stub(eval_filter_expr, stub_eval_filter_expr)] #[kani::stub(collect_emitted_event, stub_collect_emitted_event)] #[kani::stub(call_user_function, stub_call_user_function)] c10_lit_add_int_int, "C10/fold_binary/literal/Add/Int-Int", (a: i64, b: i64), { check_fold_binary(BinOp::Add, Expr::Int(a), Expr::Int(b)) });
-vpv_cell!(#[kani::stub(eval_filter_expr, stub_eval_filter_expr)] #[kani::stub(collect_emitted_event, stub_collect_emitted_event)] #[kani::stub(call_user_function, stub_call_user_function)] c10_lit_sub_int_int, "C10/fold_binary/literal/Sub/Int-Int", (a: i64, b: i64), { check_fold_binary(BinOp::Sub, Expr::Int(a), Expr::Int(b)) });
-vpv_cell!(#[kani::stub(eval_filter_expr, stub_eval_filter_expr)] #[kani::stub(collect_emitted_event, stub_collect_emitted_event)] #[kani::stub(call_user_function, stub_call_user_function)] c10_lit_mul_int_int, "C10/fold_binary/literal/Mul/Int-Int", (a: i64, b: i64), { check_fold_binary(BinOp::Mul, Expr::Int(a), Expr::Int(b)) });
-vpv_cell!(#[kani::stub(eval_filter_expr, stub_eval_filter_expr)] #[kani::stub(collect_emitted_event, stub_collect_emitted_event)] #[kani::stub(call_user_function, stub_call_user_function)] c10_lit_div_int_int, "C10/fold_binary/literal/Div/Int-Int", (a: i64, b: i64), { check_fold_binary(BinOp::Div, Expr::Int(a), Expr::Int(b)) });
-vpv_cell!(#[kani::stub(eval_filter_expr, stub_eval_filter_expr)] #[kani::stub(collect_emitted_event, stub_collect_emitted_event)] #[kani::stub(call_user_function, stub_call_user_function)] c10_lit_mod_int_int, "C10/fold_binary/literal/Mod/Int-Int", (a: i64, b: i64), { check_fold_binary(BinOp::Mod, Expr::Int(a), Expr::Int(b)) });
-vpv_cell!(#[kani::stub(eval_filter_expr, stub_eval_filter_expr)] #[kani::stub(collect_emitted_event, stub_collect_emitted_event)] #[kani::stub(call_user_function, stub_call_user_function)] c10_lit_add_float_float, "C10/fold_binary/literal/Add/Float-Float", (a: f64, b: f64), { check_fold_binary(BinOp::Add, Expr::Float(a), Expr::Float(b)) });
-vpv_cell!(#[kani::stub(eval_filter_expr, stub_eval_filter_expr)] #[kani::stub(collect_emitted_event, stub_collect_emitted_event)] #[kani::stub(call_user_function, stub_call_user_function)] c10_lit_sub_float_float, "C10/fold_binary/literal/Sub/Float-Float", (a: f64, b: f64), { check_fold_binary(BinOp::Sub, Expr::Float(a), Expr::Float(b)) });
-vpv_cell!(#[kani::stub(eval_filter_expr, stub_eval_filter_expr)] #[kani::stub(collect_emitted_event, stub_collect_emitted_event)] #[kani::stub(call_user_function, stub_call_user_function)] c10_lit_mul_float_float, "C10/fold_binary/literal/Mul/Float-Float", (a: f64, b: f64), { check_fold_binary(BinOp::Mul, Expr::Float(a), Expr::Float(b)) });
-vpv_cell!(#[kani::stub(eval_filter_expr, stub_eval_filter_expr)] #[kani::stub(collect_emitted_event, stub_collect_emitted_event)] #[kani::stub(call_user_function, stub_call_user_function)] c10_lit_div_float_float, "C10/fold_binary/literal/Div/Float-Float", (a: f64, b: f64), { check_fold_binary(BinOp::Div, Expr::Float(a), Expr::Float(b)) });
-vpv_cell!(#[kani::stub(eval_filter_expr, stub_eval_filter_expr)] #[kani::stub(collect_emitted_event, stub_collect_emitted_event)] #[kani::stub(call_user_function, stub_call_user_function)] c10_lit_mod_float_float, "C10/fold_binary/literal/Mod/Float-Float", (a: f64, b: f64), { check_fold_binary(BinOp::Mod, Expr::Float(a), Expr::Float(b)) });
-vpv_cell!(#[kani::stub(eval_filter_expr, stub_eval_filter_expr)] #[kani::stub(collect_emitted_event, stub_collect_emitted_event)] #[kani::stub(call_user_function, stub_call_user_function)] c10_lit_pow_float_float, "C10/fold_binary/literal/Pow/Float-Float", (a: f64, b: f64), { check_fold_binary(BinOp::Pow, Expr::Float(a), Expr::Float(b)) });
-vpv_cell!(#[kani::stub(eval_filter_expr, stub_eval_filter_expr)] #[kani::stub(collect_emitted_event, stub_collect_emitted_event)] #[kani::stub(call_user_function, stub_call_user_function)] c10_lit_add_int_float, "C10/fold_binary/literal/Add/Int-Float", (a: i64, b: f64), { check_fold_binary(BinOp::Add, Expr::Int(a), Expr::Float(b)) });
-vpv_cell!(#[kani::stub(eval_filter_expr, stub_eval_filter_expr)] #[kani::stub(collect_emitted_event, stub_collect_emitted_event)] #[kani::stub(call_user_function, stub_call_user_function)] c10_lit_add_float_int, "C10/fold_binary/literal/Add/Float-Int", (a: f64, b: i64), { check_fold_binary(BinOp::Add, Expr::Float(a), Expr::Int(b)) });
-vpv_cell!(#[kani::stub(eval_filter_expr, stub_eval_filter_expr)] #[kani::stub(collect_emitted_event, stub_collect_emitted_event)] #[kani::stub(call_user_function, stub_call_user_function)] c10_lit_sub_int_float, "C10/fold_binary/literal/Sub/Int-Float", (a: i64, b: f64), { check_fold_binary(BinOp::Sub, Expr::Int(a), Expr::Float(b)) });
-vpv_cell!(#[kani::stub(eval_filter_expr, stub_eval_filter_expr)] #[kani::stub(collect_emitted_event, stub_collect_emitted_event)] #[kani::stub(call_user_function, stub_call_user_function)] c10_lit_sub_float_int, "C10/fold_binary/literal/Sub/Float-Int", (a: f64, b: i64), { check_fold_binary(BinOp::Sub, Expr::Float(a), Expr::Int(b)) });
-vpv_cell!(#[kani::stub(eval_filter_expr, stub_eval_filter_expr)] #[kani::stub(collect_emitted_event, stub_collect_emitted_event)] #[kani::stub(call_user_function, stub_call_user_function)] c10_lit_mul_int_float, "C10/fold_binary/literal/Mul/Int-Float", (a: i64, b: f64), { check_fold_binary(BinOp::Mul, Expr::Int(a), Expr::Float(b)) });
-vpv_cell!(#[kani::stub(eval_filter_expr, stub_eval_filter_expr)] #[kani::stub(collect_emitted_event, stub_collect_emitted_event)] #[kani::stub(call_user_function, stub_call_user_function)] c10_lit_mul_float_int, "C10/fold_binary/literal/Mul/Float-Int", (a: f64, b: i64), { check_fold_binary(BinOp::Mul, Expr::Float(a), Expr::Int(b)) });
-vpv_cell!(#[kani::stub(eval_filter_expr, stub_eval_filter_expr)] #[kani::stub(collect_emitted_event, stub_collect_emitted_event)] #[kani::stub(call_user_function, stub_call_user_function)] c10_lit_div_int_float, "C10/fold_binary/literal/Div/Int-Float", (a: i64, b: f64), { check_fold_binary(BinOp::Div, Expr::Int(a), Expr::Float(b)) });
-vpv_cell!(#[kani::stub(eval_filter_expr, stub_eval_filter_expr)] #[kani::stub(collect_emitted_event, stub_collect_emitted_event)] #[kani::stub(call_user_function, stub_call_user_function)] c10_lit_div_float_int, "C10/fold_binary/literal/Div/Float-Int", (a: f64, b: i64), { check_fold_binary(BinOp::Div, Expr::Float(a), Expr::Int(b)) });
-vpv_cell!(#[kani::stub(eval_filter_expr, stub_eval_filter_expr)] #[kani::stub(collect_emitted_event, stub_collect_emitted_event)] #[kani::stub(call_user_function, stub_call_user_function)] c10_id_mul_zero_r_float, "C10/fold_binary/identity/x*0/x=float", (f: f64), { check_fold_binary(BinOp::Mul, Expr::Float(f), Expr::Int(0)) });
-vpv_cell!(#[kani::stub(eval_filter_expr, stub_eval_filter_expr)] #[kani::stub(collect_emitted_event, stub_collect_emitted_event)] #[kani::stub(call_user_function, stub_call_user_function)] #[kani::unwind(6)] c10_id_mul_zero_r_str, "C10/fold_binary/identity/x*0/x=str", (), { check_fold_binary(BinOp::Mul, Expr::Str(String::from("ab")), Expr::Int(0)) });
-vpv_cell!(#[kani::stub(eval_filter_expr, stub_eval_filter_expr)] #[kani::stub(collect_emitted_event, stub_collect_emitted_event)] #[kani::stub(call_user_function, stub_call_user_function)] c10_id_mul_zero_r_bool, "C10/fold_binary/identity/x*0/x=bool", (b: bool), { check_fold_binary(BinOp::Mul, Expr::Bool(b), Expr::Int(0)) });
-vpv_cell!(#[kani::stub(eval_filter_expr, stub_eval_filter_expr)] #[kani::stub(collect_emitted_event, stub_collect_emitted_event)] #[kani::stub(call_user_function, stub_call_user_function)] c10_id_mul_zero_r_null, "C10/fold_binary/identity/x*0/x=null", (), { check_fold_binary(BinOp::Mul, Expr::Null, Expr::Int(0)) });
-vpv_cell!(#[kani::stub(eval_filter_expr, stub_eval_filter_expr)] #[kani::stub(collect_emitted_event, stub_collect_emitted_event)] #[kani::stub(call_user_function, stub_call_user_function)] c10_id_mul_zero_l_float, "C10/fold_binary/identity/0*x/x=float", (f: f64), { check_fold_binary(BinOp::Mul, Expr::Int(0), Expr::Float(f)) });
-vpv_cell!(#[kani::stub(eval_filter_expr, stub_eval_filter_expr)] #[kani::stub(collect_emitted_event, stub_collect_emitted_event)] #[kani::stub(call_user_function, stub_call_user_function)] #[kani::unwind(6)] c10_id_mul_zero_l_str, "C10/fold_binary/identity/0*x/x=str", (), { check_fold_binary(BinOp::Mul, Expr::Int(0), Expr::Str(String::from("ab"))) });
-vpv_cell!(#[kani::stub(eval_filter_expr, stub_eval_filter_expr)] #[kani::stub(collect_emitted_event, stub_collect_emitted_event)] #[kani::stub(call_user_function, stub_call_user_function)] c10_id_mul_zero_l_bool, "C10/fold_binary/identity/0*x/x=bool", (b: bool), { check_fold_binary(BinOp::Mul, Expr::Int(0), Expr::Bool(b)) });
-vpv_cell!(#[kani::stub(eval_filter_expr, stub_eval_filter_expr)] #[kani::stub(collect_emitted_event, stub_collect_emitted_event)] #[kani::stub(call_user_function, stub_call_user_function)] c10_id_mul_zero_l_null, "C10/fold_binary/identity/0*x/x=null", (), { check_fold_binary(BinOp::Mul, Expr::Int(0), Expr::Null) });
-vpv_cell!(#[kani::stub(eval_filter_expr, stub_eval_filter_expr)] #[kani::stub(collect_emitted_event, stub_collect_emitted_event)] #[kani::stub(call_user_function, stub_call_user_function)] c10_id_mul_one_r_float, "C10/fold_binary/identity/x*1/x=float", (f: f64), { check_fold_binary(BinOp::Mul, Expr::Float(f), Expr::Int(1)) });
-vpv_cell!(#[kani::stub(eval_filter_expr, stub_eval_filter_expr)] #[kani::stub(collect_emitted_event, stub_collect_emitted_event)] #[kani::stub(call_user_function, stub_call_user_function)] #[kani::unwind(6)] c10_id_mul_one_r_str, "C10/fold_binary/identity/x*1/x=str", (), { check_fold_binary(BinOp::Mul, Expr::Str(String::from("ab")), Expr::Int(1)) });
-vpv_cell!(#[kani::stub(eval_filter_expr, stub_eval_filter_expr)] #[kani::stub(collect_emitted_event, stub_collect_emitted_event)] #[kani::stub(call_user_function, stub_call_user_function)] c10_id_mul_one_r_bool, "C10/fold_binary/identity/x*1/x=bool", (b: bool), { check_fold_binary(BinOp::Mul, Expr::Bool(b), Expr::Int(1)) });
-vpv_cell!(#[kani::stub(eval_filter_expr, stub_eval_filter_expr)] #[kani::stub(collect_emitted_event, stub_collect_emitted_event)] #[kani::stub(call_user_function, stub_call_user_function)] c10_id_mul_one_r_null, "C10/fold_binary/identity/x*1/x=null", (), { check_fold_binary(BinOp::Mul, Expr::Null, Expr::Int(1)) });
-vpv_cell!(#[kani::stub(eval_filter_expr, stub_eval_filter_expr)] #[kani::stub(collect_emitted_event, stub_collect_emitted_event)] #[kani::stub(call_user_function, stub_call_user_function)] c10_id_mul_one_l_float, "C10/fold_binary/identity/1*x/x=float", (f: f64), { check_fold_binary(BinOp::Mul, Expr::Int(1), Expr::Float(f)) });
-vpv_cell!(#[kani::stub(eval_filter_expr, stub_eval_filter_expr)] #[kani::stub(collect_emitted_event, stub_collect_emitted_event)] #[kani::stub(call_user_function, stub_call_user_function)] #[kani::unwind(6)] c10_id_mul_one_l_str, "C10/fold_binary/identity/1*x/x=str", (), { check_fold_binary(BinOp::Mul, Expr::Int(1), Expr::Str(String::from("ab"))) });
-vpv_cell!(#[kani::stub(eval_filter_expr, stub_eval_filter_expr)] #[kani::stub(collect_emitted_event, stub_collect_emitted_event)] #[kani::stub(call_user_function, stub_call_user_function)] c10_id_mul_one_l_bool, "C10/fold_binary/identity/1*x/x=bool", (b: bool), { check_fold_binary(BinOp::Mul, Expr::Int(1), Expr::Bool(b)) });
-vpv_cell!(#[kani::stub(eval_filter_expr, stub_eval_filter_expr)] #[kani::stub(collect_emitted_event, stub_collect_emitted_event)] #[kani::stub(call_user_function, stub_call_user_function)] c10_id_mul_one_l_null, "C10/fold_binary/identity/1*x/x=null", (), { check_fold_binary(BinOp::Mul, Expr::Int(1), Expr::Null) });
-vpv_cell!(#[kani::stub(eval_filter_expr, stub_eval_filter_expr)] #[kani::stub(collect_emitted_event, stub_collect_emitted_event)] #[kani::stub(call_user_function, stub_call_user_function)] c10_id_add_zero_r_float, "C10/fold_binary/identity/x+0/x=float", (f: f64), { check_fold_binary(BinOp::Add, Expr::Float(f), Expr::Int(0)) });
-vpv_cell!(#[kani::stub(eval_filter_expr, stub_eval_filter_expr)] #[kani::stub(collect_emitted_event, stub_collect_emitted_event)] #[kani::stub(call_user_function, stub_call_user_function)] #[kani::unwind(6)] c10_id_add_zero_r_str, "C10/fold_binary/identity/x+0/x=str", (), { check_fold_binary(BinOp::Add, Expr::Str(String::from("ab")), Expr::Int(0)) });
-vpv_cell!(#[kani::stub(eval_filter_expr, stub_eval_filter_expr)] #[kani::stub(collect_emitted_event, stub_collect_emitted_event)] #[kani::stub(call_user_function, stub_call_user_function)] c10_id_add_zero_r_bool, "C10/fold_binary/identity/x+0/x=bool", (b: bool), { check_fold_binary(BinOp::Add, Expr::Bool(b), Expr::Int(0)) });
-vpv_cell!(#[kani::stub(eval_filter_expr, stub_eval_filter_expr)] #[kani::stub(collect_emitted_event, stub_collect_emitted_event)] #[kani::stub(call_user_function, stub_call_user_function)] c10_id_add_zero_r_null, "C10/fold_binary/identity/x+0/x=null", (), { check_fold_binary(BinOp::Add, Expr::Null, Expr::Int(0)) });
-vpv_cell!(#[kani::stub(eval_filter_expr, stub_eval_filter_expr)] #[kani::stub(collect_emitted_event, stub_collect_emitted_event)] #[kani::stub(call_user_function, stub_call_user_function)] c10_id_add_zero_l_float, "C10/fold_binary/identity/0+x/x=float", (f: f64), { check_fold_binary(BinOp::Add, Expr::Int(0), Expr::Float(f)) });
-vpv_cell!(#[kani::stub(eval_filter_expr, stub_eval_filter_expr)] #[kani::stub(collect_emitted_event, stub_collect_emitted_event)] #[kani::stub(call_user_function, stub_call_user_function)] #[kani::unwind(6)] c10_id_add_zero_l_str, "C10/fold_binary/identity/0+x/x=str", (), { check_fold_binary(BinOp::Add, Expr::Int(0), Expr::Str(String::from("ab"))) });
-vpv_cell!(#[kani::stub(eval_filter_expr, stub_eval_filter_expr)] #[kani::stub(collect_emitted_event, stub_collect_emitted_event)] #[kani::stub(call_user_function, stub_call_user_function)] c10_id_add_zero_l_bool, "C10/fold_binary/identity/0+x/x=bool", (b: bool), { check_fold_binary(BinOp::Add, Expr::Int(0), Expr::Bool(b)) });
-vpv_cell!(#[kani::stub(eval_filter_expr, stub_eval_filter_expr)] #[kani::stub(collect_emitted_event, stub_collect_emitted_event)] #[kani::stub(call_user_function, stub_call_user_function)] c10_id_add_zero_l_null, "C10/fold_binary/identity/0+x/x=null", (), { check_fold_binary(BinOp::Add, Expr::Int(0), Expr::Null) });
-vpv_cell!(#[kani::stub(eval_filter_expr, stub_eval_filter_expr)] #[kani::stub(collect_emitted_event, stub_collect_emitted_event)] #[kani::stub(call_user_function, stub_call_user_function)] c10_id_sub_zero_r_float, "C10/fold_binary/identity/x-0/x=float", (f: f64), { check_fold_binary(BinOp::Sub, Expr::Float(f), Expr::Int(0)) });
-vpv_cell!(#[kani::stub(eval_filter_expr, stub_eval_filter_expr)] #[kani::stub(collect_emitted_event, stub_collect_emitted_event)] #[kani::stub(call_user_function, stub_call_user_function)] #[kani::unwind(6)] c10_id_sub_zero_r_str, "C10/fold_binary/identity/x-0/x=str", (), { check_fold_binary(BinOp::Sub, Expr::Str(String::from("ab")), Expr::Int(0)) });
-vpv_cell!(#[kani::stub(eval_filter_expr, stub_eval_filter_expr)] #[kani::stub(collect_emitted_event, stub_collect_emitted_event)] #[kani::stub(call_user_function, stub_call_user_function)] c10_id_sub_zero_r_bool, "C10/fold_binary/identity/x-0/x=bool", (b: bool), { check_fold_binary(BinOp::Sub, Expr::Bool(b), Expr::Int(0)) });
-vpv_cell!(#[kani::stub(eval_filter_expr, stub_eval_filter_expr)] #[kani::stub(collect_emitted_event, stub_collect_emitted_event)] #[kani::stub(call_user_function, stub_call_user_function)] c10_id_sub_zero_r_null, "C10/fold_binary/identity/x-0/x=null", (), { check_fold_binary(BinOp::Sub, Expr::Null, Expr::Int(0)) });
-vpv_cell!(#[kani::stub(eval_filter_expr, stub_eval_filter_expr)] #[kani::stub(collect_emitted_event, stub_collect_emitted_event)] #[kani::stub(call_user_function, stub_call_user_function)] c10_id_div_one_r_float, "C10/fold_binary/identity/x/1/x=float", (f: f64), { check_fold_binary(BinOp::Div, Expr::Float(f), Expr::Int(1)) });
-vpv_cell!(#[kani::stub(eval_filter_expr, stub_eval_filter_expr)] #[kani::stub(collect_emitted_event, stub_collect_emitted_event)] #[kani::stub(call_user_function, stub_call_user_function)] #[kani::unwind(6)] c10_id_div_one_r_str, "C10/fold_binary/identity/x/1/x=str", (), { check_fold_binary(BinOp::Div, Expr::Str(String::from("ab")), Expr::Int(1)) });
-vpv_cell!(#[kani::stub(eval_filter_expr, stub_eval_filter_expr)] #[kani::stub(collect_emitted_event, stub_collect_emitted_event)] #[kani::stub(call_user_function, stub_call_user_function)] c10_id_div_one_r_bool, "C10/fold_binary/identity/x/1/x=bool", (b: bool), { check_fold_binary(BinOp::Div, Expr::Bool(b), Expr::Int(1)) });
-vpv_cell!(#[kani::stub(eval_filter_expr, stub_eval_filter_expr)] #[kani::stub(collect_emitted_event, stub_collect_emitted_event)] #[kani::stub(call_user_function, stub_call_user_function)] c10_id_div_one_r_null, "C10/fold_binary/identity/x/1/x=null", (), { check_fold_binary(BinOp::Div, Expr::Null, Expr::Int(1)) });
-vpv_cell!(#[kani::stub(eval_filter_expr, stub_eval_filter_expr)] #[kani::stub(collect_emitted_event, stub_collect_emitted_event)] #[kani::stub(call_user_function, stub_call_user_function)] c10_passthrough_lt, "C10/fold_binary/reconstruct/Lt/Int-Int", (a: i64, b: i64), { check_fold_binary(BinOp::Lt, Expr::Int(a), Expr::Int(b)) });
-vpv_cell!(#[kani::stub(eval_filter_expr, stub_eval_filter_expr)] #[kani::stub(collect_emitted_event, stub_collect_emitted_event)] #[kani::stub(call_user_function, stub_call_user_function)] c10_passthrough_eq, "C10/fold_binary/reconstruct/Eq/Int-Int", (a: i64, b: i64), { check_fold_binary(BinOp::Eq, Expr::Int(a), Expr::Int(b)) });
-vpv_cell!(#[kani::stub(eval_filter_expr, stub_eval_filter_expr)] #[kani::stub(collect_emitted_event, stub_collect_emitted_event)] #[kani::stub(call_user_function, stub_call_user_function)] c10_passthrough_and, "C10/fold_binary/reconstruct/And/Int-Int", (a: i64, b: i64), { check_fold_binary(BinOp::And, Expr::Int(a), Expr::Int(b)) });
-vpv_cell!(#[kani::stub(eval_filter_expr, stub_eval_filter_expr)] #[kani::stub(collect_emitted_event, stub_collect_emitted_event)] #[kani::stub(call_user_function, stub_call_user_function)] c10_neg_int, "C10/fold_unary/Neg/Int", (a: i64), { check_fold_unary(UnaryOp::Neg, Expr::Int(a)) });
-vpv_cell!(#[kani::stub(eval_filter_expr, stub_eval_filter_expr)] #[kani::stub(collect_emitted_event, stub_collect_emitted_event)] #[kani::stub(call_user_function, stub_call_user_function)] c10_neg_float, "C10/fold_unary/Neg/Float", (a: f64), { check_fold_unary(UnaryOp::Neg, Expr::Float(a)) });
-vpv_cell!(#[kani::stub(eval_filter_expr, stub_eval_filter_expr)] #[kani::stub(collect_emitted_event, stub_collect_emitted_event)] #[kani::stub(call_user_function, stub_call_user_function)] c10_not_bool, "C10/fold_unary/Not/Bool", (a: bool), { check_fold_unary(UnaryOp::Not, Expr::Bool(a)) });
+vpv_cell!(#[kani::unwind(6)] #[kani::stub(eval_filter_expr, stub_eval_filter_expr)] #[kani::stub(collect_emitted_event, stub_collect_emitted_event)] #[kani::stub(call_user_function, stub_call_user_function)] c10_lit_add_int_int, "C10/fold_binary/literal/Add/Int-Int", (a: i64, b: i64), { check_fold_binary(BinOp::Add, Expr::Int(a), Expr::Int(b)) });
+vpv_cell!(#[kani::unwind(6)] #[kani::stub(eval_filter_expr, stub_eval_filter_expr)] #[kani::stub(collect_emitted_event, stub_collect_emitted_event)] #[kani::stub(call_user_function, stub_call_user_function)] c10_lit_sub_int_int, "C10/fold_binary/literal/Sub/Int-Int", (a: i64, b: i64), { check_fold_binary(BinOp::Sub, Expr::Int(a), Expr::Int(b)) });
+vpv_cell!(#[kani::unwind(6)] #[kani::stub(eval_filter_expr, stub_eval_filter_expr)] #[kani::stub(collect_emitted_event, stub_collect_emitted_event)] #[kani::stub(call_user_function, stub_call_user_function)] c10_lit_mul_int_int, "C10/fold_binary/literal/Mul/Int-Int", (a: i64, b: i64), { check_fold_binary(BinOp::Mul, Expr::Int(a), Expr::Int(b)) });
+vpv_cell!(#[kani::unwind(6)] #[kani::stub(eval_filter_expr, stub_eval_filter_expr)] #[kani::stub(collect_emitted_event, stub_collect_emitted_event)] #[kani::stub(call_user_function, stub_call_user_function)] c10_lit_div_int_int, "C10/fold_binary/literal/Div/Int-Int", (a: i64, b: i64), { check_fold_binary(BinOp::Div, Expr::Int(a), Expr::Int(b)) });
+vpv_cell!(#[kani::unwind(6)] #[kani::stub(eval_filter_expr, stub_eval_filter_expr)] #[kani::stub(collect_emitted_event, stub_collect_emitted_event)] #[kani::stub(call_user_function, stub_call_user_function)] c10_lit_mod_int_int, "C10/fold_binary/literal/Mod/Int-Int", (a: i64, b: i64), { check_fold_binary(BinOp::Mod, Expr::Int(a), Expr::Int(b)) });
+vpv_cell!(#[kani::unwind(6)] #[kani::stub(eval_filter_expr, stub_eval_filter_expr)] #[kani::stub(collect_emitted_event, stub_collect_emitted_event)] #[kani::stub(call_user_function, stub_call_user_function)] c10_lit_add_float_float, "C10/fold_binary/literal/Add/Float-Float", (a: f64, b: f64), { check_fold_binary(BinOp::Add, Expr::Float(a), Expr::Float(b)) });
+vpv_cell!(#[kani::unwind(6)] #[kani::stub(eval_filter_expr, stub_eval_filter_expr)] #[kani::stub(collect_emitted_event, stub_collect_emitted_event)] #[kani::stub(call_user_function, stub_call_user_function)] c10_lit_sub_float_float, "C10/fold_binary/literal/Sub/Float-Float", (a: f64, b: f64), { check_fold_binary(BinOp::Sub, Expr::Float(a), Expr::Float(b)) });
+vpv_cell!(#[kani::unwind(6)] #[kani::stub(eval_filter_expr, stub_eval_filter_expr)] #[kani::stub(collect_emitted_event, stub_collect_emitted_event)] #[kani::stub(call_user_function, stub_call_user_function)] c10_lit_mul_float_float, "C10/fold_binary/literal/Mul/Float-Float", (a: f64, b: f64), { check_fold_binary(BinOp::Mul, Expr::Float(a), Expr::Float(b)) });
+vpv_cell!(#[kani::unwind(6)] #[kani::stub(eval_filter_expr, stub_eval_filter_expr)] #[kani::stub(collect_emitted_event, stub_collect_emitted_event)] #[kani::stub(call_user_function, stub_call_user_function)] c10_lit_div_float_float, "C10/fold_binary/literal/Div/Float-Float", (a: f64, b: f64), { check_fold_binary(BinOp::Div, Expr::Float(a), Expr::Float(b)) });
+vpv_cell!(#[kani::unwind(6)] #[kani::stub(eval_filter_expr, stub_eval_filter_expr)] #[kani::stub(collect_emitted_event, stub_collect_emitted_event)] #[kani::stub(call_user_function, stub_call_user_function)] c10_lit_mod_float_float, "C10/fold_binary/literal/Mod/Float-Float", (a: f64, b: f64), { check_fold_binary(BinOp::Mod, Expr::Float(a), Expr::Float(b)) });
+vpv_cell!(#[kani::unwind(6)] #[kani::stub(eval_filter_expr, stub_eval_filter_expr)] #[kani::stub(collect_emitted_event, stub_collect_emitted_event)] #[kani::stub(call_user_function, stub_call_user_function)] c10_lit_pow_float_float, "C10/fold_binary/literal/Pow/Float-Float", (a: f64, b: f64), { check_fold_binary(BinOp::Pow, Expr::Float(a), Expr::Float(b)) });
+vpv_cell!(#[kani::unwind(6)] #[kani::stub(eval_filter_expr, stub_eval_filter_expr)] #[kani::stub(collect_emitted_event, stub_collect_emitted_event)] #[kani::stub(call_user_function, stub_call_user_function)] c10_lit_add_int_float, "C10/fold_binary/literal/Add/Int-Float", (a: i64, b: f64), { check_fold_binary(BinOp::Add, Expr::Int(a), Expr::Float(b)) });
+vpv_cell!(#[kani::unwind(6)] #[kani::stub(eval_filter_expr, stub_eval_filter_expr)] #[kani::stub(collect_emitted_event, stub_collect_emitted_event)] #[kani::stub(call_user_function, stub_call_user_function)] c10_lit_add_float_int, "C10/fold_binary/literal/Add/Float-Int", (a: f64, b: i64), { check_fold_binary(BinOp::Add, Expr::Float(a), Expr::Int(b)) });
+vpv_cell!(#[kani::unwind(6)] #[kani::stub(eval_filter_expr, stub_eval_filter_expr)] #[kani::stub(collect_emitted_event, stub_collect_emitted_event)] #[kani::stub(call_user_function, stub_call_user_function)] c10_lit_sub_int_float, "C10/fold_binary/literal/Sub/Int-Float", (a: i64, b: f64), { check_fold_binary(BinOp::Sub, Expr::Int(a), Expr::Float(b)) });
+vpv_cell!(#[kani::unwind(6)] #[kani::stub(eval_filter_expr, stub_eval_filter_expr)] #[kani::stub(collect_emitted_event, stub_collect_emitted_event)] #[kani::stub(call_user_function, stub_call_user_function)] c10_lit_sub_float_int, "C10/fold_binary/literal/Sub/Float-Int", (a: f64, b: i64), { check_fold_binary(BinOp::Sub, Expr::Float(a), Expr::Int(b)) });
+vpv_cell!(#[kani::unwind(6)] #[kani::stub(eval_filter_expr, stub_eval_filter_expr)] #[kani::stub(collect_emitted_event, stub_collect_emitted_event)] #[kani::stub(call_user_function, stub_call_user_function)] c10_lit_mul_int_float, "C10/fold_binary/literal/Mul/Int-Float", (a: i64, b: f64), { check_fold_binary(BinOp::Mul, Expr::Int(a), Expr::Float(b)) });
+vpv_cell!(#[kani::unwind(6)] #[kani::stub(eval_filter_expr, stub_eval_filter_expr)] #[kani::stub(collect_emitted_event, stub_collect_emitted_event)] #[kani::stub(call_user_function, stub_call_user_function)] c10_lit_mul_float_int, "C10/fold_binary/literal/Mul/Float-Int", (a: f64, b: i64), { check_fold_binary(BinOp::Mul, Expr::Float(a), Expr::Int(b)) });
+vpv_cell!(#[kani::unwind(6)] #[kani::stub(eval_filter_expr, stub_eval_filter_expr)] #[kani::stub(collect_emitted_event, stub_collect_emitted_event)] #[kani::stub(call_user_function, stub_call_user_function)] c10_lit_div_int_float, "C10/fold_binary/literal/Div/Int-Float", (a: i64, b: f64), { check_fold_binary(BinOp::Div, Expr::Int(a), Expr::Float(b)) });
+vpv_cell!(#[kani::unwind(6)] #[kani::stub(eval_filter_expr, stub_eval_filter_expr)] #[kani::stub(collect_emitted_event, stub_collect_emitted_event)] #[kani::stub(call_user_function, stub_call_user_function)] c10_lit_div_float_int, "C10/fold_binary/literal/Div/Float-Int", (a: f64, b: i64), { check_fold_binary(BinOp::Div, Expr::Float(a), Expr::Int(b)) });
+vpv_cell!(#[kani::unwind(6)] #[kani::stub(eval_filter_expr, stub_eval_filter_expr)] #[kani::stub(collect_emitted_event, stub_collect_emitted_event)] #[kani::stub(call_user_function, stub_call_user_function)] c10_id_mul_zero_r_float, "C10/fold_binary/identity/x*0/x=float", (f: f64), { check_fold_binary(BinOp::Mul, Expr::Float(f), Expr::Int(0)) });
+vpv_cell!(#[kani::unwind(6)] #[kani::stub(eval_filter_expr, stub_eval_filter_expr)] #[kani::stub(collect_emitted_event, stub_collect_emitted_event)] #[kani::stub(call_user_function, stub_call_user_function)] #[kani::unwind(6)] c10_id_mul_zero_r_str, "C10/fold_binary/identity/x*0/x=str", (), { check_fold_binary(BinOp::Mul, Expr::Str(String::from("ab")), Expr::Int(0)) });
+vpv_cell!(#[kani::unwind(6)] #[kani::stub(eval_filter_expr, stub_eval_filter_expr)] #[kani::stub(collect_emitted_event, stub_collect_emitted_event)] #[kani::stub(call_user_function, stub_call_user_function)] c10_id_mul_zero_r_bool, "C10/fold_binary/identity/x*0/x=bool", (b: bool), { check_fold_binary(BinOp::Mul, Expr::Bool(b), Expr::Int(0)) });
+vpv_cell!(#[kani::unwind(6)] #[kani::stub(eval_filter_expr, stub_eval_filter_expr)] #[kani::stub(collect_emitted_event, stub_collect_emitted_event)] #[kani::stub(call_user_function, stub_call_user_function)] c10_id_mul_zero_r_null, "C10/fold_binary/identity/x*0/x=null", (), { check_fold_binary(BinOp::Mul, Expr::Null, Expr::Int(0)) });
+vpv_cell!(#[kani::unwind(6)] #[kani::stub(eval_filter_expr, stub_eval_filter_expr)] #[kani::stub(collect_emitted_event, stub_collect_emitted_event)] #[kani::stub(call_user_function, stub_call_user_function)] c10_id_mul_zero_l_float, "C10/fold_binary/identity/0*x/x=float", (f: f64), { check_fold_binary(BinOp::Mul, Expr::Int(0), Expr::Float(f)) });
+vpv_cell!(#[kani::unwind(6)] #[kani::stub(eval_filter_expr, stub_eval_filter_expr)] #[kani::stub(collect_emitted_event, stub_collect_emitted_event)] #[kani::stub(call_user_function, stub_call_user_function)] #[kani::unwind(6)] c10_id_mul_zero_l_str, "C10/fold_binary/identity/0*x/x=str", (), { check_fold_binary(BinOp::Mul, Expr::Int(0), Expr::Str(String::from("ab"))) });
+vpv_cell!(#[kani::unwind(6)] #[kani::stub(eval_filter_expr, stub_eval_filter_expr)] #[kani::stub(collect_emitted_event, stub_collect_emitted_event)] #[kani::stub(call_user_function, stub_call_user_function)] c10_id_mul_zero_l_bool, "C10/fold_binary/identity/0*x/x=bool", (b: bool), { check_fold_binary(BinOp::Mul, Expr::Int(0), Expr::Bool(b)) });
+vpv_cell!(#[kani::unwind(6)] #[kani::stub(eval_filter_expr, stub_eval_filter_expr)] #[kani::stub(collect_emitted_event, stub_collect_emitted_event)] #[kani::stub(call_user_function, stub_call_user_function)] c10_id_mul_zero_l_null, "C10/fold_binary/identity/0*x/x=null", (), { check_fold_binary(BinOp::Mul, Expr::Int(0), Expr::Null) });
+vpv_cell!(#[kani::unwind(6)] #[kani::stub(eval_filter_expr, stub_eval_filter_expr)] #[kani::stub(collect_emitted_event, stub_collect_emitted_event)] #[kani::stub(call_user_function, stub_call_user_function)] c10_id_mul_one_r_float, "C10/fold_binary/identity/x*1/x=float", (f: f64), { check_fold_binary(BinOp::Mul, Expr::Float(f), Expr::Int(1)) });
+vpv_cell!(#[kani::unwind(6)] #[kani::stub(eval_filter_expr, stub_eval_filter_expr)] #[kani::stub(collect_emitted_event, stub_collect_emitted_event)] #[kani::stub(call_user_function, stub_call_user_function)] #[kani::unwind(6)] c10_id_mul_one_r_str, "C10/fold_binary/identity/x*1/x=str", (), { check_fold_binary(BinOp::Mul, Expr::Str(String::from("ab")), Expr::Int(1)) });
+vpv_cell!(#[kani::unwind(6)] #[kani::stub(eval_filter_expr, stub_eval_filter_expr)] #[kani::stub(collect_emitted_event, stub_collect_emitted_event)] #[kani::stub(call_user_function, stub_call_user_function)] c10_id_mul_one_r_bool, "C10/fold_binary/identity/x*1/x=bool", (b: bool), { check_fold_binary(BinOp::Mul, Expr::Bool(b), Expr::Int(1)) });
+vpv_cell!(#[kani::unwind(6)] #[kani::stub(eval_filter_expr, stub_eval_filter_expr)] #[kani::stub(collect_emitted_event, stub_collect_emitted_event)] #[kani::stub(call_user_function, stub_call_user_function)] c10_id_mul_one_r_null, "C10/fold_binary/identity/x*1/x=null", (), { check_fold_binary(BinOp::Mul, Expr::Null, Expr::Int(1)) });
+vpv_cell!(#[kani::unwind(6)] #[kani::stub(eval_filter_expr, stub_eval_filter_expr)] #[kani::stub(collect_emitted_event, stub_collect_emitted_event)] #[kani::stub(call_user_function, stub_call_user_function)] c10_id_mul_one_l_float, "C10/fold_binary/identity/1*x/x=float", (f: f64), { check_fold_binary(BinOp::Mul, Expr::Int(1), Expr::Float(f)) });
+vpv_cell!(#[kani::unwind(6)] #[kani::stub(eval_filter_expr, stub_eval_filter_expr)] #[kani::stub(collect_emitted_event, stub_collect_emitted_event)] #[kani::stub(call_user_function, stub_call_user_function)] #[kani::unwind(6)] c10_id_mul_one_l_str, "C10/fold_binary/identity/1*x/x=str", (), { check_fold_binary(BinOp::Mul, Expr::Int(1), Expr::Str(String::from("ab"))) });
+vpv_cell!(#[kani::unwind(6)] #[kani::stub(eval_filter_expr, stub_eval_filter_expr)] #[kani::stub(collect_emitted_event, stub_collect_emitted_event)] #[kani::stub(call_user_function, stub_call_user_function)] c10_id_mul_one_l_bool, "C10/fold_binary/identity/1*x/x=bool", (b: bool), { check_fold_binary(BinOp::Mul, Expr::Int(1), Expr::Bool(b)) });
+vpv_cell!(#[kani::unwind(6)] #[kani::stub(eval_filter_expr, stub_eval_filter_expr)] #[kani::stub(collect_emitted_event, stub_collect_emitted_event)] #[kani::stub(call_user_function, stub_call_user_function)] c10_id_mul_one_l_null, "C10/fold_binary/identity/1*x/x=null", (), { check_fold_binary(BinOp::Mul, Expr::Int(1), Expr::Null) });
+vpv_cell!(#[kani::unwind(6)] #[kani::stub(eval_filter_expr, stub_eval_filter_expr)] #[kani::stub(collect_emitted_event, stub_collect_emitted_event)] #[kani::stub(call_user_function, stub_call_user_function)] c10_id_add_zero_r_float, "C10/fold_binary/identity/x+0/x=float", (f: f64), { check_fold_binary(BinOp::Add, Expr::Float(f), Expr::Int(0)) });
+vpv_cell!(#[kani::unwind(6)] #[kani::stub(eval_filter_expr, stub_eval_filter_expr)] #[kani::stub(collect_emitted_event, stub_collect_emitted_event)] #[kani::stub(call_user_function, stub_call_user_function)] #[kani::unwind(6)] c10_id_add_zero_r_str, "C10/fold_binary/identity/x+0/x=str", (), { check_fold_binary(BinOp::Add, Expr::Str(String::from("ab")), Expr::Int(0)) });
+vpv_cell!(#[kani::unwind(6)] #[kani::stub(eval_filter_expr, stub_eval_filter_expr)] #[kani::stub(collect_emitted_event, stub_collect_emitted_event)] #[kani::stub(call_user_function, stub_call_user_function)] c10_id_add_zero_r_bool, "C10/fold_binary/identity/x+0/x=bool", (b: bool), { check_fold_binary(BinOp::Add, Expr::Bool(b), Expr::Int(0)) });
+vpv_cell!(#[kani::unwind(6)] #[kani::stub(eval_filter_expr, stub_eval_filter_expr)] #[kani::stub(collect_emitted_event, stub_collect_emitted_event)] #[kani::stub(call_user_function, stub_call_user_function)] c10_id_add_zero_r_null, "C10/fold_binary/identity/x+0/x=null", (), { check_fold_binary(BinOp::Add, Expr::Null, Expr::Int(0)) });
+vpv_cell!(#[kani::unwind(6)] #[kani::stub(eval_filter_expr, stub_eval_filter_expr)] #[kani::stub(collect_emitted_event, stub_collect_emitted_event)] #[kani::stub(call_user_function, stub_call_user_function)] c10_id_add_zero_l_float, "C10/fold_binary/identity/0+x/x=float", (f: f64), { check_fold_binary(BinOp::Add, Expr::Int(0), Expr::Float(f)) });
+vpv_cell!(#[kani::unwind(6)] #[kani::stub(eval_filter_expr, stub_eval_filter_expr)] #[kani::stub(collect_emitted_event, stub_collect_emitted_event)] #[kani::stub(call_user_function, stub_call_user_function)] #[kani::unwind(6)] c10_id_add_zero_l_str, "C10/fold_binary/identity/0+x/x=str", (), { check_fold_binary(BinOp::Add, Expr::Int(0), Expr::Str(String::from("ab"))) });
+vpv_cell!(#[kani::unwind(6)] #[kani::stub(eval_filter_expr, stub_eval_filter_expr)] #[kani::stub(collect_emitted_event, stub_collect_emitted_event)] #[kani::stub(call_user_function, stub_call_user_function)] c10_id_add_zero_l_bool, "C10/fold_binary/identity/0+x/x=bool", (b: bool), { check_fold_binary(BinOp::Add, Expr::Int(0), Expr::Bool(b)) });
+vpv_cell!(#[kani::unwind(6)] #[kani::stub(eval_filter_expr, stub_eval_filter_expr)] #[kani::stub(collect_emitted_event, stub_collect_emitted_event)] #[kani::stub(call_user_function, stub_call_user_function)] c10_id_add_zero_l_null, "C10/fold_binary/identity/0+x/x=null", (), { check_fold_binary(BinOp::Add, Expr::Int(0), Expr::Null) });
+vpv_cell!(#[kani::unwind(6)] #[kani::stub(eval_filter_expr, stub_eval_filter_expr)] #[kani::stub(collect_emitted_event, stub_collect_emitted_event)] #[kani::stub(call_user_function, stub_call_user_function)] c10_id_sub_zero_r_float, "C10/fold_binary/identity/x-0/x=float", (f: f64), { check_fold_binary(BinOp::Sub, Expr::Float(f), Expr::Int(0)) });
+vpv_cell!(#[kani::unwind(6)] #[kani::stub(eval_filter_expr, stub_eval_filter_expr)] #[kani::stub(collect_emitted_event, stub_collect_emitted_event)] #[kani::stub(call_user_function, stub_call_user_function)] #[kani::unwind(6)] c10_id_sub_zero_r_str, "C10/fold_binary/identity/x-0/x=str", (), { check_fold_binary(BinOp::Sub, Expr::Str(String::from("ab")), Expr::Int(0)) });
+vpv_cell!(#[kani::unwind(6)] #[kani::stub(eval_filter_expr, stub_eval_filter_expr)] #[kani::stub(collect_emitted_event, stub_collect_emitted_event)] #[kani::stub(call_user_function, stub_call_user_function)] c10_id_sub_zero_r_bool, "C10/fold_binary/identity/x-0/x=bool", (b: bool), { check_fold_binary(BinOp::Sub, Expr::Bool(b), Expr::Int(0)) });
+vpv_cell!(#[kani::unwind(6)] #[kani::stub(eval_filter_expr, stub_eval_filter_expr)] #[kani::stub(collect_emitted_event, stub_collect_emitted_event)] #[kani::stub(call_user_function, stub_call_user_function)] c10_id_sub_zero_r_null, "C10/fold_binary/identity/x-0/x=null", (), { check_fold_binary(BinOp::Sub, Expr::Null, Expr::Int(0)) });
+vpv_cell!(#[kani::unwind(6)] #[kani::stub(eval_filter_expr, stub_eval_filter_expr)] #[kani::stub(collect_emitted_event, stub_collect_emitted_event)] #[kani::stub(call_user_function, stub_call_user_function)] c10_id_div_one_r_float, "C10/fold_binary/identity/x/1/x=float", (f: f64), { check_fold_binary(BinOp::Div, Expr::Float(f), Expr::Int(1)) });
+vpv_cell!(#[kani::unwind(6)] #[kani::stub(eval_filter_expr, stub_eval_filter_expr)] #[kani::stub(collect_emitted_event, stub_collect_emitted_event)] #[kani::stub(call_user_function, stub_call_user_function)] #[kani::unwind(6)] c10_id_div_one_r_str, "C10/fold_binary/identity/x/1/x=str", (), { check_fold_binary(BinOp::Div, Expr::Str(String::from("ab")), Expr::Int(1)) });
+vpv_cell!(#[kani::unwind(6)] #[kani::stub(eval_filter_expr, stub_eval_filter_expr)] #[kani::stub(collect_emitted_event, stub_collect_emitted_event)] #[kani::stub(call_user_function, stub_call_user_function)] c10_id_div_one_r_bool, "C10/fold_binary/identity/x/1/x=bool", (b: bool), { check_fold_binary(BinOp::Div, Expr::Bool(b), Expr::Int(1)) });
+vpv_cell!(#[kani::unwind(6)] #[kani::stub(eval_filter_expr, stub_eval_filter_expr)] #[kani::stub(collect_emitted_event, stub_collect_emitted_event)] #[kani::stub(call_user_function, stub_call_user_function)] c10_id_div_one_r_null, "C10/fold_binary/identity/x/1/x=null", (), { check_fold_binary(BinOp::Div, Expr::Null, Expr::Int(1)) });
+vpv_cell!(#[kani::unwind(6)] #[kani::stub(eval_filter_expr, stub_eval_filter_expr)] #[kani::stub(collect_emitted_event, stub_collect_emitted_event)] #[kani::stub(call_user_function, stub_call_user_function)] c10_passthrough_lt, "C10/fold_binary/reconstruct/Lt/Int-Int", (a: i64, b: i64), { check_fold_binary(BinOp::Lt, Expr::Int(a), Expr::Int(b)) });
+vpv_cell!(#[kani::unwind(6)] #[kani::stub(eval_filter_expr, stub_eval_filter_expr)] #[kani::stub(collect_emitted_event, stub_collect_emitted_event)] #[kani::stub(call_user_function, stub_call_user_function)] c10_passthrough_eq, "C10/fold_binary/reconstruct/Eq/Int-Int", (a: i64, b: i64), { check_fold_binary(BinOp::Eq, Expr::Int(a), Expr::Int(b)) });
+vpv_cell!(#[kani::unwind(6)] #[kani::stub(eval_filter_expr, stub_eval_filter_expr)] #[kani::stub(collect_emitted_event, stub_collect_emitted_event)] #[kani::stub(call_user_function, stub_call_user_function)] c10_passthrough_and, "C10/fold_binary/reconstruct/And/Int-Int", (a: i64, b: i64), { check_fold_binary(BinOp::And, Expr::Int(a), Expr::Int(b)) });
+vpv_cell!(#[kani::unwind(6)] #[kani::stub(eval_filter_expr, stub_eval_filter_expr)] #[kani::stub(collect_emitted_event, stub_collect_emitted_event)] #[kani::stub(call_user_function, stub_call_user_function)] c10_neg_int, "C10/fold_unary/Neg/Int", (a: i64), { check_fold_unary(UnaryOp::Neg, Expr::Int(a)) });
+vpv_cell!(#[kani::unwind(6)] #[kani::stub(eval_filter_expr, stub_eval_filter_expr)] #[kani::stub(collect_emitted_event, stub_collect_emitted_event)] #[kani::stub(call_user_function, stub_call_user_function)] c10_neg_float, "C10/fold_unary/Neg/Float", (a: f64), { check_fold_unary(UnaryOp::Neg, Expr::Float(a)) });
+vpv_cell!(#[kani::unwind(6)] #[kani::stub(eval_filter_expr, stub_eval_filter_expr)] #[kani::stub(collect_emitted_event, stub_collect_emitted_event)] #[kani::stub(call_user_function, stub_call_user_function)] c10_not_bool, "C10/fold_unary/Not/Bool", (a: bool), { check_fold_unary(UnaryOp::Not, Expr::Bool(a)) });
 vpv_replay_table!(c10_lit_add_int_int, c10_lit_sub_int_int, c10_lit_mul_int_int, c10_lit_div_int_int, c10_lit_mod_int_int, c10_lit_add_float_float, c10_lit_sub_float_float, c10_lit_mul_float_float, c10_lit_div_float_float, c10_lit_mod_float_float, c10_lit_pow_float_float, c10_lit_add_int_float, c10_lit_add_float_int, c10_lit_sub_int_float, c10_lit_sub_float_int, c10_lit_mul_int_float, c10_lit_mul_float_int, c10_lit_div_int_float, c10_lit_div_float_int, c10_id_mul_zero_r_float, c10_id_mul_zero_r_str, c10_id_mul_zero_r_bool, c10_id_mul_zero_r_null, c10_id_mul_zero_l_float, c10_id_mul_zero_l_str, c10_id_mul_zero_l_bool, c10_id_mul_zero_l_null, c10_id_mul_one_r_float, c10_id_mul_one_r_str, c10_id_mul_one_r_bool, c10_id_mul_one_r_null, c10_id_mul_one_l_float, c10_id_mul_one_l_str, c10_id_mul_one_l_bool, c10_id_mul_one_l_null, c10_id_add_zero_r_float, c10_id_add_zero_r_str, c10_id_add_zero_r_bool, c10_id_add_zero_r_null, c10_id_add_zero_l_float, c10_id_add_zero_l_str, c10_id_add_zero_l_bool, c10_id_add_zero_l_null, c10_id_sub_zero_r_float, c10_id_sub_zero_r_str, c10_id_sub_zero_r_bool, c10_id_sub_zero_r_null, c10_id_div_one_r_float, c10_id_div_one_r_str, c10_id_div_one_r_bool, c10_id_div_one_r_null, c10_passthrough_lt, c10_passthrough_eq, c10_passthrough_and, c10_neg_int, c10_neg_float, c10_not_bool);
